@@ -250,9 +250,13 @@ pub fn emit(nodes: &[Node], roots: &[u32], o: &EmitOpts) -> Emitted {
             }
             Node::Pow(a, e) => {
                 obligations.push((format!("pow-base-pos n{}", i), format!("(> {} 0.0)", g(a))));
-                let p = e.numer().abs().to_u32().expect("exponent numerator");
-                let q = e.denom().to_u32().expect("exponent denominator");
-                match o.pow {
+                let pq = (e.numer().abs().to_u32(), e.denom().to_u32());
+                let small = matches!(pq, (Some(p), Some(q)) if p <= 64 && q <= 64);
+                // exponents that are not small rationals (non-dyadic f64 weights) are kept opaque:
+                // only y > 0 is known — an over-approximation, sound for `unsat`
+                let enc = if small { o.pow } else { PowEnc::Opaque };
+                let (p, q) = if small { (pq.0.unwrap(), pq.1.unwrap()) } else { (0, 0) };
+                match enc {
                     PowEnc::Algebraic => {
                         writeln!(s, "(declare-const {} Real)\n(assert (> {} 0.0))", nm, nm).unwrap();
                         if e.is_positive() {
